@@ -15,23 +15,61 @@ def expected_structuralSrp : List String := ["Default for $name @src/key.rs",
   "cfg all(feature=\"srp-default-math\",not(feature=\"srp-fast-math\")) @src/bigint.rs",
   "cfg all(feature=\"srp-default-math\",not(feature=\"srp-fast-math\")) @src/bigint.rs",
   "cfg all(feature=\"srp-default-math\",not(feature=\"srp-fast-math\")) @src/bigint.rs",
-  "$name @src/key.rs: Clone Copy Ord PartialOrd PartialEq Eq Hash",
+  "cfg all(test,any(feature=\"srp-default-math\",feature=\"srp-fast-math\")) @src/lib.rs",
+  "cfg any(feature=\"srp-default-math\",feature=\"srp-fast-math\") @src/key.rs",
+  "cfg any(feature=\"srp-default-math\",feature=\"srp-fast-math\") @src/key.rs",
+  "cfg any(feature=\"srp-default-math\",feature=\"srp-fast-math\") @src/key.rs",
+  "cfg any(feature=\"srp-default-math\",feature=\"srp-fast-math\") @src/key.rs",
+  "cfg any(feature=\"srp-default-math\",feature=\"srp-fast-math\") @src/key.rs",
+  "cfg any(feature=\"srp-default-math\",feature=\"srp-fast-math\") @src/key.rs",
+  "cfg any(feature=\"srp-default-math\",feature=\"srp-fast-math\") @src/key.rs",
+  "cfg any(feature=\"srp-default-math\",feature=\"srp-fast-math\") @src/key.rs",
+  "cfg any(feature=\"srp-default-math\",feature=\"srp-fast-math\") @src/key.rs",
+  "cfg any(feature=\"srp-default-math\",feature=\"srp-fast-math\") @src/lib.rs",
+  "cfg any(feature=\"srp-default-math\",feature=\"srp-fast-math\") @src/lib.rs",
+  "cfg any(feature=\"srp-default-math\",feature=\"srp-fast-math\") @src/lib.rs",
+  "cfg any(feature=\"srp-default-math\",feature=\"srp-fast-math\") @src/lib.rs",
+  "cfg any(feature=\"srp-default-math\",feature=\"srp-fast-math\") @src/lib.rs",
+  "cfg any(feature=\"srp-default-math\",feature=\"srp-fast-math\") @src/primes.rs",
+  "cfg any(feature=\"srp-default-math\",feature=\"srp-fast-math\") @src/primes.rs",
+  "cfg any(feature=\"srp-default-math\",feature=\"srp-fast-math\") @src/primes.rs",
+  "cfg any(feature=\"srp-default-math\",feature=\"srp-fast-math\") @src/primes.rs",
+  "cfg any(feature=\"srp-default-math\",feature=\"srp-fast-math\") @src/primes.rs",
+  "cfg any(feature=\"srp-default-math\",feature=\"srp-fast-math\") @src/primes.rs",
+  "cfg any(feature=\"srp-default-math\",feature=\"srp-fast-math\") @src/primes.rs",
+  "cfg any(feature=\"srp-default-math\",feature=\"srp-fast-math\") @src/primes.rs",
+  "cfg any(feature=\"srp-default-math\",feature=\"srp-fast-math\") @src/primes.rs",
+  "cfg any(feature=\"srp-default-math\",feature=\"srp-fast-math\") @src/primes.rs",
+  "cfg any(feature=\"srp-default-math\",feature=\"srp-fast-math\") @src/primes.rs",
+  "cfg any(feature=\"srp-default-math\",feature=\"srp-fast-math\") @src/primes.rs",
+  "cfg any(feature=\"srp-default-math\",feature=\"srp-fast-math\") @src/primes.rs",
+  "cfg any(feature=\"srp-default-math\",feature=\"srp-fast-math\") @src/primes.rs",
+  "cfg feature=\"integrity\" @src/lib.rs",
+  "cfg feature=\"matrix-card\" @src/lib.rs",
+  "cfg feature=\"srp-fast-math\" @src/bigint.rs",
+  "cfg feature=\"srp-fast-math\" @src/bigint.rs",
+  "cfg feature=\"srp-fast-math\" @src/bigint.rs",
+  "cfg feature=\"srp-fast-math\" @src/bigint.rs",
+  "cfg feature=\"srp-fast-math\" @src/bigint.rs",
+  "cfg feature=\"tbc-header\" @src/lib.rs",
+  "cfg feature=\"wrath-header\" @src/lib.rs",
+  "$name @src/key.rs: Clone Copy Ord PartialOrd PartialEq Eq Hash | key",
   "Generator @src/primes.rs: ",
   "Integer @src/bigint.rs: ",
-  "InvalidPublicKeyError @src/error.rs: ",
+  "InvalidPublicKeyError @src/error.rs:  | PublicKeyIsZero PublicKeyModLargeSafePrimeIsZero",
   "KValue @src/primes.rs: ",
   "LargeSafePrime @src/primes.rs: ",
-  "MatchProofsError @src/error.rs: ",
-  "NormalizedStringError @src/error.rs: ",
-  "SrpClient @src/client.rs: Clone Ord PartialOrd Eq PartialEq Hash",
-  "SrpClientChallenge @src/client.rs: Clone Ord PartialOrd Eq PartialEq Hash",
-  "SrpClientReconnection @src/client.rs: Copy Clone Ord PartialOrd Eq PartialEq Default Hash",
-  "SrpError @src/error.rs: ",
-  "SrpProof @src/server.rs: Clone Ord PartialOrd Eq PartialEq Hash",
-  "SrpServer @src/server.rs: Clone Ord PartialOrd Eq PartialEq Hash",
-  "SrpVerifier @src/server.rs: Clone Ord PartialOrd Eq PartialEq Hash",
-  "UnsplitCryptoError @src/error.rs: "]
+  "MatchProofsError @src/error.rs:  | client_proof server_proof",
+  "NormalizedStringError @src/error.rs:  | CharacterNotAllowed StringTooLong",
+  "SrpClient @src/client.rs: Clone Ord PartialOrd Eq PartialEq Hash | username NormalizedString session_key SessionKey",
+  "SrpClientChallenge @src/client.rs: Clone Ord PartialOrd Eq PartialEq Hash | username NormalizedString client_proof Proof client_public_key PublicKey session_key SessionKey",
+  "SrpClientReconnection @src/client.rs: Copy Clone Ord PartialOrd Eq PartialEq Default Hash | challenge_data proof",
+  "SrpError @src/error.rs:  | ProofsDoNotMatch InvalidPublicKey NormalizedStringError",
+  "SrpProof @src/server.rs: Clone Ord PartialOrd Eq PartialEq Hash | username NormalizedString server_public_key PublicKey salt Salt server_private_key PrivateKey password_verifier Verifier",
+  "SrpServer @src/server.rs: Clone Ord PartialOrd Eq PartialEq Hash | username NormalizedString session_key SessionKey reconnect_challenge_data ReconnectData",
+  "SrpVerifier @src/server.rs: Clone Ord PartialOrd Eq PartialEq Hash | username NormalizedString password_verifier Verifier salt Salt",
+  "UnsplitCryptoError @src/error.rs:  | "]
 
-theorem structuralSrp_ok : Gen.structuralSrp = expected_structuralSrp := by decide
+theorem structuralSrp_ok : Gen.structuralSrp = expected_structuralSrp := by decide +kernel
 
 end WowSrp
